@@ -14,3 +14,14 @@ package paths
 //@ loop 0 invariant len(a) == len(b) && 0 <= _n && _n <= len(a)
 //@ loop 0 invariant forall(k, 0, _n, segOK(a[k], b[k]))
 //@ loop 0 decreases len(a) - _n
+
+//@ func addConflict props C15,C14
+//@ requires out != nil && seen != nil
+//@ modifies *out, elems(*out), elems(seen)
+//@ ensures size: len(*out) == old(len(*out)) || len(*out) == old(len(*out))+1
+//@ ensures keep: forall(i, 0, old(len(*out)), (*out)[i] == old((*out)[i]))
+//@ ensures added: implies(len(*out) == old(len(*out))+1, (*out)[old(len(*out))].Reason == reason && ite(a.Path > b.Path, (*out)[old(len(*out))].A == b && (*out)[old(len(*out))].B == a, (*out)[old(len(*out))].A == a && (*out)[old(len(*out))].B == b))
+//@ ensures canonical: implies(len(*out) == old(len(*out))+1, !((*out)[old(len(*out))].A.Path > (*out)[old(len(*out))].B.Path))
+
+//@ func splitSegments props C15,C14
+//@ ensures implies(p == "/" || p == "", len(result) == 0)
